@@ -31,6 +31,8 @@ type seed struct {
 	fields []fld
 	sparse bool
 	fill   byte
+	light  bool // an additional shape of a format that already has a main seed: reduced budgets
+	bare   bool // a member of a systematic family: run as it is (and with slack), nothing substituted
 }
 
 // ---------- builder ----------
@@ -62,18 +64,18 @@ func (x *bld) num(v uint64, w int, be, mark bool, scale int) *bld {
 	}
 	return x
 }
-func (x *bld) u8(v uint64) *bld   { return x.num(v, 1, false, false, 1) }
-func (x *bld) u16(v uint64) *bld  { return x.num(v, 2, false, false, 1) }
-func (x *bld) u32(v uint64) *bld  { return x.num(v, 4, false, false, 1) }
-func (x *bld) u64(v uint64) *bld  { return x.num(v, 8, false, false, 1) }
-func (x *bld) L8(v uint64) *bld   { return x.num(v, 1, false, true, 1) }
-func (x *bld) L16(v uint64) *bld  { return x.num(v, 2, false, true, 1) }
-func (x *bld) L24(v uint64) *bld  { return x.num(v, 3, false, true, 1) }
-func (x *bld) L32(v uint64) *bld  { return x.num(v, 4, false, true, 1) }
-func (x *bld) L64(v uint64) *bld  { return x.num(v, 8, false, true, 1) }
-func (x *bld) B32(v uint64) *bld  { return x.num(v, 4, true, true, 1) }
-func (x *bld) b32(v uint64) *bld  { return x.num(v, 4, true, false, 1) }
-func (x *bld) b64(v uint64) *bld  { return x.num(v, 8, true, false, 1) }
+func (x *bld) u8(v uint64) *bld              { return x.num(v, 1, false, false, 1) }
+func (x *bld) u16(v uint64) *bld             { return x.num(v, 2, false, false, 1) }
+func (x *bld) u32(v uint64) *bld             { return x.num(v, 4, false, false, 1) }
+func (x *bld) u64(v uint64) *bld             { return x.num(v, 8, false, false, 1) }
+func (x *bld) L8(v uint64) *bld              { return x.num(v, 1, false, true, 1) }
+func (x *bld) L16(v uint64) *bld             { return x.num(v, 2, false, true, 1) }
+func (x *bld) L24(v uint64) *bld             { return x.num(v, 3, false, true, 1) }
+func (x *bld) L32(v uint64) *bld             { return x.num(v, 4, false, true, 1) }
+func (x *bld) L64(v uint64) *bld             { return x.num(v, 8, false, true, 1) }
+func (x *bld) B32(v uint64) *bld             { return x.num(v, 4, true, true, 1) }
+func (x *bld) b32(v uint64) *bld             { return x.num(v, 4, true, false, 1) }
+func (x *bld) b64(v uint64) *bld             { return x.num(v, 8, true, false, 1) }
 func (x *bld) LS32(v uint64, scale int) *bld { return x.num(v, 4, false, true, scale) }
 func (x *bld) mark(off, w int)               { x.f = append(x.f, fld{off, w, false, 1}) }
 func (x *bld) seed(name string) seed         { return seed{name: name, b: x.b, fields: x.f} }
@@ -219,6 +221,25 @@ func boundaryValues(total int, f fld, orig uint64) []uint64 {
 	add(orig + 4)
 	add(orig + 16)
 	add(orig - 16)
+	// the boundaries of every narrower integer width inside a wider field (a check or a use made
+	// on uint16(x) / int32(x) / uint32(x)), and mid-range sizes: large enough to matter as an
+	// allocation (1 MiB .. 256 MiB), far below the all-ones family (which an upper-limit check
+	// added to the code would reject)
+	if f.w >= 3 {
+		for _, v := range []uint64{0x7fff, 0x8000, 0xffff, 0x10000, 0x10001, 1 << 20, 0xffffff} {
+			add(v)
+		}
+	}
+	if f.w >= 4 {
+		for _, v := range []uint64{1 << 24, 1<<24 + 1, 1 << 26, 1 << 27, 1 << 28, 1<<28 + 8} {
+			add(v)
+		}
+	}
+	if f.w >= 8 {
+		for _, v := range []uint64{1<<31 - 1, 1 << 31, 1<<32 - 1, 1 << 32, 1<<32 + 1, 1<<32 + 0x100, 1 << 40} {
+			add(v)
+		}
+	}
 	seen := map[uint64]bool{orig & m: true}
 	var out []uint64
 	for _, v := range vs {
@@ -229,6 +250,103 @@ func boundaryValues(total int, f fld, orig uint64) []uint64 {
 	}
 	sort.Slice(out, func(i, j int) bool { return out[i] < out[j] })
 	return out
+}
+
+// coreValues: the few boundary values EVERY recorded field of every seed gets (the full set of
+// boundaryValues is sampled under a budget): zero, one, all-ones, the sign bit, exactly what
+// remains behind the field and one unit more, and two mid-range sizes.
+func coreValues(total int, f fld, orig uint64) []uint64 {
+	m := wmask(f.w)
+	rem := uint64(0)
+	if total-f.off-f.w > 0 {
+		rem = uint64(total - f.off - f.w)
+	}
+	switch {
+	case f.scale > 1:
+		rem /= uint64(f.scale)
+	case f.scale < 0:
+		rem *= uint64(-f.scale)
+	}
+	vs := []uint64{0, 1, m, m>>1 + 1, rem, rem + 1}
+	switch {
+	case f.w >= 4:
+		vs = append(vs, 1<<20, 1<<27)
+	case f.w == 3:
+		vs = append(vs, 1<<20)
+	}
+	seen := map[uint64]bool{orig & m: true}
+	var out []uint64
+	for _, v := range vs {
+		v &= m
+		if !seen[v] {
+			seen[v] = true
+			out = append(out, v)
+		}
+	}
+	return out
+}
+
+// pairSubst: two fields changed at once.  A size that is checked against another field of the same
+// structure (data size <= total size, exponent + modulus <= blob, offset + size <= length) only
+// reaches the code behind that check when both move together:
+//   - the same amount K added to both (their difference, which is what such a check looks at, stays)
+//   - both zero, both all-ones
+//   - the first zero and the second doubled / raised by what the first held (one part of a
+//     two-part body shrinks, the other grows into the space)
+type pairSub struct {
+	f, g   fld
+	vf, vg uint64
+}
+
+func pairValues(f, g fld, of, og uint64) []pairSub {
+	mf, mg := wmask(f.w), wmask(g.w)
+	w := f.w
+	if g.w < w {
+		w = g.w
+	}
+	var ks []uint64
+	switch {
+	case w >= 4:
+		ks = []uint64{1 << 16, 1 << 24, 1 << 28}
+	case w == 3:
+		ks = []uint64{1 << 12, 1 << 20}
+	case w == 2:
+		ks = []uint64{1 << 8, 1 << 15}
+	default:
+		ks = []uint64{16, 128}
+	}
+	var out []pairSub
+	for _, k := range ks {
+		out = append(out, pairSub{f, g, (of + k) & mf, (og + k) & mg})
+	}
+	out = append(out, pairSub{f, g, 0, 0}, pairSub{f, g, mf, mg},
+		pairSub{f, g, 0, (og * 2) & mg}, pairSub{f, g, 0, (og + of) & mg}, pairSub{f, g, 0, (og*2 + og/2) & mg},
+		pairSub{f, g, (of * 2) & mf, 0})
+	return out
+}
+
+// corePairs: the two pair substitutions every pair of neighbouring fields gets (not sampled):
+// both zero, and the same large amount added to both
+func corePairs(f, g fld, of, og uint64) []pairSub {
+	mf, mg := wmask(f.w), wmask(g.w)
+	w := f.w
+	if g.w < w {
+		w = g.w
+	}
+	k := uint64(128)
+	switch {
+	case w >= 4:
+		k = 1 << 28
+	case w == 3:
+		k = 1 << 20
+	case w == 2:
+		k = 1 << 15
+	}
+	return []pairSub{{f, g, 0, 0}, {f, g, (of + k) & mf, (og + k) & mg}}
+}
+
+func substitute2(b []byte, p pairSub) []byte {
+	return substitute(substitute(b, p.f, p.vf), p.g, p.vg)
 }
 
 // aliasValues: truncation aliases of the VALID value of a field -- the value with one or
